@@ -219,6 +219,26 @@ class Tagger:
                     else:
                         inner = [("alt", inner, alt)]
                 out += inner
+            elif isinstance(s, ast.For) and isinstance(
+                    s.iter, (ast.Tuple, ast.List)) and isinstance(
+                    s.target, ast.Name) and not s.orelse:
+                # a loop over a literal list of keys: one copy of the body
+                # per entry
+                import copy as _cp
+
+                class _S(ast.NodeTransformer):
+                    def __init__(self, nm: str, e: ast.expr) -> None:
+                        self.nm, self.e = nm, e
+
+                    def visit_Name(self, n: ast.Name) -> ast.AST:
+                        if n.id == self.nm and isinstance(n.ctx, ast.Load):
+                            return _cp.deepcopy(self.e)
+                        return n
+                for e_ in s.iter.elts:
+                    body_ = [ast.fix_missing_locations(_S(
+                        s.target.id, e_).visit(_cp.deepcopy(b_)))
+                        for b_ in s.body]
+                    out += self.stream(body_)
             elif isinstance(s, ast.For):
                 src = s.iter
                 name = None
@@ -427,7 +447,10 @@ def _csv_reader(ctx: Ctx, mod: Module, rec_name: str) -> None:
            f"{mod.name.split('.')[-1]}.CsvReader: each of the "
            f"{n_checked} constructor arguments of {rec_name} is read from "
            "the column whose key names that parameter" if ok else
-           f"{mod.name.split('.')[-1]}.CsvReader: " + "; ".join(problems),
+           f"{mod.name.split('.')[-1]}.CsvReader: " + ("; ".join(problems)
+           if problems else f"only {n_checked} of {len(params)} constructor "
+           "arguments are read directly from fields of the reader: the way "
+           "the record is assembled is not recognised"),
            construct=f"{mod.name.split('.')[-1]} reader chain")
     _cell_converters(ctx, mod, parse, call, rec_name, pairs)
     # keys used by the reader are keys the writer emits
@@ -436,6 +459,11 @@ def _csv_reader(ctx: Ctx, mod: Module, rec_name: str) -> None:
                if isinstance(n, ast.Call) and isinstance(
                    n.func, ast.Name) and n.func.id == "csv_scope"
                for a in n.args[1:2]}
+    # keys listed in a literal tuple that a loop of the writer runs over
+    for lp_ in ast.walk(w.node):
+        if isinstance(lp_, ast.For) and isinstance(
+                lp_.iter, (ast.Tuple, ast.List)):
+            emitted |= {repo.const(mod, e_) for e_ in lp_.iter.elts}
     missing = sorted(set(idx_key.values()) - emitted)
     ctx.ob("D19.1", init, init.node, not missing,
            "every key the reader looks up is a key the writer emits" if
@@ -525,8 +553,8 @@ def _reader_sanity(ctx: Ctx, mod: Module, init: FuncInfo,
                     f"with {k} objective(s) and {2 * k} bound columns, "
                     "which is what the writer produces")
     if n_checked < 4:
-        problems.append("the reader's consistency checks could not be "
-                        "evaluated")
+        problems.append("the reader's consistency checks cannot be "
+                        "normalised (not recognised)")
     # optional cells: kept exactly when the cell is non-empty
     for n in ast.walk(parse.node):
         if isinstance(n, ast.DictComp):
@@ -644,7 +672,8 @@ def _cell_converters(ctx: Ctx, mod: Any, parse: FuncInfo, call: ast.Call,
            "converters give back the kind of number declared for their "
            "field" if ok else f"{mod.name.split('.')[-1]}.CsvReader: "
            + "; ".join(problems or unknown or [
-               f"only {n_conv} cell converters are recognised"]),
+               f"the cell converters are not recognised (only {n_conv} "
+               "found in the constructor arguments)"]),
            construct=f"{mod.name.split('.')[-1]} cell converters")
 
 
